@@ -162,7 +162,22 @@ def run_case(cfg_shard, case, out):
         t_idle0 = w.clock.now
         n_events0 = len(events)
         idle_ticks = int(cfg["idle"] / cfg["dt"])
-        w.step(idle_ticks)
+        w.step(idle_ticks // 2)
+        # a second client behind the same IP address (another port: NAT, a second window of the game) connects while the
+        # first one is as quiet as its keep-alive interval lets it be; the first one is not affected
+        ems_a = emissions["c2s"].setdefault(a.addr, [])
+        w.run_until(lambda ww: ems_a and ww.clock.now - ems_a[-1] >= 0.85 * max(eff["keep_alive"], a.udp.conn.send_interval) - tick_max, int(eff["keep_alive"] / cfg["dt"]) + 5)
+        b = w.add_client(addr=(a.addr[0], a.addr[1] + 1))
+        b.connect()
+        ok_b = w.run_until(lambda ww: getattr(b.udp.conn.status, "value", 0) == 2 and b.addr in ww.ctxt.connections, 400)
+        c.inc("same_ip_second_client_connected" if ok_b else "same_ip_second_client_failed")
+        if not ok_b:
+            viol("honest-handshake-failed", "a second client from the same IP address (port %d) could not connect" % b.addr[1])
+        w.step(idle_ticks // 2)
+        b.udp.disconnect()
+        w.step(6)
+        w.remove_client(b)
+        events[:] = [e for e in events if e[2] != b.addr]
         t_idle1 = w.clock.now
         c.inc("idle_seconds", int(cfg["idle"]))
         # K2
@@ -316,6 +331,40 @@ def run_case(cfg_shard, case, out):
                 viol("client-dropped-window", "client reported DROPPED %.4fs after the last datagram it accepted (expected 5 s + 2 ticks)" % el)
             else:
                 c.inc("k3_client_in_window")
+        # ---------------- K4 on the SAME UdpClient after DROPPED: the application tries to reconnect while the server is still
+        #                  unreachable (hello sent, DISCONNECTED with one False after the connect timeout), then over a healed link
+        if t_drop is not None:
+            n_cb = len(a.connect_cb)
+            t0 = w.clock.now
+            n_em = len(emissions["c2s"].get(a.addr, []))
+            a.connect(with_callback=True)
+            timeout = eff["connect_timeout"]
+            # (setters made before connect persist on the UdpClient; 'after' ones were applied to the old connection and to the client)
+            timeout = a.udp.temp_connection_timeout
+            t_disc = None
+            while w.clock.now - t0 < timeout + 4 * tick_max + 0.5:
+                w.step()
+                if getattr(a.udp.conn.status, "value", 0) == 4:
+                    t_disc = w.clock.now
+                    break
+            c.inc("k4_reconnects_after_dropped")
+            vals = [v for t, v in a.connect_cb[n_cb:]]
+            if len(emissions["c2s"].get(a.addr, [])) == n_em:
+                viol("reconnect-after-dropped-ignored", "connect() on a DROPPED UdpClient sent nothing (status %s)" % (a.udp.conn.status,))
+            elif t_disc is None or vals != [False] or not (timeout - EPS <= t_disc - t0 <= timeout + 2 * tick_max + EPS):
+                viol("reconnect-after-dropped-timeout", "connect() on a DROPPED UdpClient with the server unreachable: status %s after %.3fs, callbacks %r, configured connect timeout %.3f" % (
+                    a.udp.conn.status, w.clock.now - t0, vals, timeout))
+            else:
+                c.inc("k4_reconnect_after_dropped_in_window")
+            w.net.heal(0.002)
+            w.step(3)
+            n_cb = len(a.connect_cb)
+            a.connect(with_callback=True)
+            ok2 = w.run_until(lambda ww: getattr(a.udp.conn.status, "value", 0) == 2 and a.addr in ww.ctxt.connections, 400)
+            if not ok2 and a.udp.temp_connection_timeout > 12 * tick_max + 0.1:
+                viol("reconnect-after-dropped-failed", "connect() on the same UdpClient over a healed link: status %s, callbacks %r" % (a.udp.conn.status, [v for t, v in a.connect_cb[n_cb:]]))
+            elif ok2:
+                c.inc("k4_reconnect_after_heal_connected")
         out["distinct"].add(h64(sorted((k, str(v)) for k, v in cfg.items())))
         if len(out["samples"]) < 2:
             out["samples"].append({"case": key, "config": cfg})
@@ -342,7 +391,8 @@ def finish(tier, seed, results):
                          "k3_client_in_window", "k4_unanswered_connects", "k4_in_window", "k4_callback_once_false", "k5_message_timeout_probes",
                          "k5_message_timeout_in_window", "setter_keep_alive_before", "setter_keep_alive_after", "setter_connect_timeout_before",
                          "setter_connect_timeout_after", "setter_message_timeout_before", "setter_message_timeout_after", "k5_keep_alive_lowered_mid_idle",
-                         "k5_keep_alive_lowered_in_window", "k1_one_directional_streams", "k1_quiet_side_within_bound"], inconclusive)
+                         "k5_keep_alive_lowered_in_window", "k1_one_directional_streams", "k1_quiet_side_within_bound",
+                         "same_ip_second_client_connected", "k4_reconnect_after_dropped_in_window", "k4_reconnect_after_heal_connected"], inconclusive)
     cov = {
         "evaluations": m["evaluations"],
         "distinct_nontrivial": m["distinct_nontrivial"],
